@@ -567,6 +567,7 @@ func runC17(c *Ctx) {
 	checkCryptoKeyHoldersAreDistinct(c, "C17-R1")
 	// sealed under the right key: a crypto key is selected and used with the manager mutex held, so a concurrent Lock()
 	// cannot zero it between selection and use (C04-R6's rules)
+	checkRandomFillCoversWholeBuffer(c, "C17-R2")
 	checkSelectedKeyUsedUnderLock(c, "C17-R1")
 	checkLiveKeysUsedUnderLock(c, "C17-R1")
 	checkSaltedHash(c, "C17-R5")
@@ -1151,9 +1152,29 @@ func checkDerivedPassphraseIsCallersOwn(c *Ctx, rule string) {
 				sites = append(sites, call)
 			}
 		}
+		// ... through the package's own generator indirection: newSecretKey(&pass, cfg) / the SecretKeyGenerator variable
+		viaGen := map[*ssa.Call]bool{}
+		for _, ci := range callsOf(fn) {
+			call, ok := ci.(*ssa.Call)
+			if !ok || len(call.Call.Args) == 0 {
+				continue
+			}
+			isGen := false
+			if g := call.Call.StaticCallee(); g != nil {
+				if fnPkgPath(g) == fnPkgPath(fn) && g.Name() == "newSecretKey" {
+					isGen = true
+				}
+			} else if !call.Call.IsInvoke() && strings.HasSuffix(call.Call.Value.Type().String(), "SecretKeyGenerator") {
+				isGen = true
+			}
+			if isGen {
+				sites = append(sites, call)
+				viaGen[call] = true
+			}
+		}
 		for _, call := range sites {
 			passIdx := 1
-			if calleeShort(&call.Call) == "NewSecretKey" {
+			if calleeShort(&call.Call) == "NewSecretKey" || viaGen[call] {
 				passIdx = 0
 			}
 			n++
@@ -1305,4 +1326,31 @@ func digestMatchEdge(p *Program, from *ssa.BasicBlock, si int) (ssa.Instruction,
 		}
 	}
 	return nil, nil, false
+}
+
+// checkRandomFillCoversWholeBuffer: every key, nonce and salt the package draws from its random source is filled
+// completely: the buffer handed to io.ReadFull is a whole array (no bounds), or the parameter of a filler part. A slice
+// that starts at the array's length is empty — ReadFull succeeds, the "random" key stays all zero, every wallet created
+// seals its keys under a publicly known crypto key.
+func checkRandomFillCoversWholeBuffer(c *Ctx, rule string) {
+	p := c.P
+	n := 0
+	for _, fn := range p.FuncsIn("snacl") {
+		for _, call := range callsNamed(fn, "ReadFull") {
+			if len(call.Call.Args) != 2 {
+				continue
+			}
+			n++
+			ok := false
+			switch x := stripConv(call.Call.Args[1]).(type) {
+			case *ssa.Slice:
+				ok = x.Low == nil && x.High == nil && x.Max == nil
+			case *ssa.Parameter:
+				ok = true
+			}
+			c.Check(rule, "random-fill-covers-whole-buffer:"+fn.Name(), call.Pos(), ok,
+				fnName(fn)+" reads random bytes into a part of its buffer only (a re-sliced array): the rest — possibly all of it — stays zero")
+		}
+	}
+	c.Floor(rule, "random fills in snacl", n, 3)
 }
